@@ -339,9 +339,7 @@ def run_impl_est(case):
             out = v.estimate(db, span, dof_correction=case["dof"], prior_obs=priors, num_variants=nvar, **kw)
     except Exception as e:
         return {"error": impl_err(e), "exc": repr(e)[:300]}
-    # which object sits under every name of the returned databox: the target's (t) or a fresh one (o); the target afterwards
-    merge_obs = {"target_keys": tkeys,
-                 "returned": [(k, "t" if (tids is not None and tids.get(k) == id(out[k])) else "o") for k in out.keys()],
+    merge_obs = {"target_keys": tkeys, "returned_keys": list(out.keys()),
                  "target_untouched": True if target is None else (list(kw["target_db"].keys()) == tkeys and all(id(kw["target_db"][k]) == tids[k] for k in tkeys))}
     res = []
     systems = v.get_system_matrices(unpack_singleton=False)
@@ -354,6 +352,18 @@ def run_impl_est(case):
         # the residual series written back into the output databox
         r["u_db"] = np.array([out["res_" + nm].get_data(full)[:, vid] for nm in en])
         res.append(r)
+    # what sits under every name of the returned databox, judged by content: the fresh result (o) or the target's entry (t)
+    def tag(k):
+        if k.startswith("res_") and k[4:] in en:
+            i = en.index(k[4:])
+            fresh = all(close(res[vid]["u_db"][i, p:], res[vid]["u"][i], tol=0) and np.all(res[vid]["u_db"][i, :p] == 0) for vid in range(nvar))
+            return "o" if fresh else "t"
+        if k in en or k in xn:
+            return "o"          # the data: the same numbers in the input, the target and the output
+        if k == "extra":
+            return "t" if np.array_equal(np.array(out[k].get_data(full)[:, 0]), np.arange(cols, dtype=float)) else "?"
+        return "?"
+    merge_obs["returned"] = [(k, tag(k)) for k in merge_obs["returned_keys"]]
     info = {"variants": res, "model": v, "out": out, "span": span, "full": full, "en": en, "xn": xn, "merge": merge_obs}
     # what the call returns also carries the data it was given and, with target_db, everything else the target held
     try:
